@@ -198,6 +198,8 @@ def fill_graph(ctx, exe, scratch, B, ops_fn, tag, prop, oracle, emu=None, max_st
 
 def small_ops(v, B):
     ops = ["e0"] + ["e%d" % k for k in range(2, 17)] + ["f", "mp5"]
+    # the event built in another order of the setters (payload in two parts first, then MCV, then clock)
+    ops += ["e3r", "e16:8+8r"]
     ops += ["j%d" % n for n in range(0, B - 16)]       # every jumbo size the API accepts (+ the first refused one)
     return ops
 
